@@ -33,12 +33,16 @@ PAIRS = {
     "emptypw": ("usr", ""),
     "nonascii": ("ünï", "pässwörd"),
     "wronghdr": ("usr", "pw1"),
+    # the htpasswd validator RAISES for this pair (bcrypt entry, password longer than 72 bytes: ValueError); not a valid
+    # credential for single/htpasswd, an ordinary accepted pair for "any"
+    "raises": ("bcu", "x" * 80),
 }
 HTPASSWD_USERS = [("usr", "pw1"), ("col", "p:w"), ("ünï", "pässwörd"), ("two", "a:b:c")]
+BCRYPT_USER = ("bcu", "pwb")  # stored as a bcrypt hash
 VALIDATORS = ("single", "any", "htpasswd")
-HTTP_CREDS_QUICK = ("valid", "colon", "wrong", "missing", "malformed")
+HTTP_CREDS_QUICK = ("valid", "colon", "wrong", "missing", "malformed", "raises")
 HTTP_CREDS_ALL = HTTP_CREDS_QUICK + ("validcase", "emptypw", "nonascii", "nocolon", "scheme", "wronghdr")
-SOCKS_CREDS = ("valid", "colon", "wrong", "missing", "emptypw", "nonascii")
+SOCKS_CREDS = ("valid", "colon", "wrong", "missing", "emptypw", "nonascii", "raises")
 PATHS = ("regular", "upstream", "reverse", "transparent", "socks5")
 MODE = {"regular": "regular", "upstream": "upstream:http://up.example:3128", "reverse": "reverse:http://example.com:80",
         "transparent": "transparent", "socks5": "socks5"}
@@ -55,6 +59,9 @@ def _tmpdir():
         with open(_tmp + "/htpasswd", "w", encoding="utf-8") as f:
             for u, p in HTPASSWD_USERS:
                 f.write(f"{u}:{{SHA}}{base64.b64encode(hashlib.sha1(p.encode()).digest()).decode()}\n")
+            import bcrypt
+
+            f.write(f"{BCRYPT_USER[0]}:{bcrypt.hashpw(BCRYPT_USER[1].encode(), bcrypt.gensalt(4)).decode()}\n")
     return _tmp
 
 
@@ -193,10 +200,15 @@ class Conn:
         addons = (pa, w.nl)
 
         def on_hook(_drv, cmd):
+            # AddonManager.trigger_event: every addon's handler runs under safecall(), i.e. an exception raised by a
+            # handler is logged ("Addon error") and the hook completes as if the handler had returned
+            from mitmproxy import addonmanager
+
             for a in addons:
                 f = getattr(a, cmd.name, None)
                 if f is not None:
-                    f(*cmd.args())
+                    with addonmanager.safecall():
+                        f(*cmd.args())
 
         self.drv = sansio.Driver(self.ctx, top, on_hook=on_hook, auto_hooks=True)
         self.cpos = 0  # parse position in the client-bound byte stream
@@ -408,14 +420,16 @@ class Check(core.PropertyCheck):
     REQUIRED_WITNESSES = ("refused_regular", "refused_upstream", "refused_reverse", "refused_transparent",
                           "refused_absolute", "refused_connect", "refused_origin", "socks_refused", "socks_accepted",
                           "forwarded_absolute", "forwarded_origin", "forwarded_inner", "tunnel_established",
-                          "header_stripped", "colon_pw_socks", "colon_pw_http", "other_connection_authenticated")
+                          "header_stripped", "colon_pw_socks", "colon_pw_http", "other_connection_authenticated",
+                          "refused_when_validator_raises")
     REQUIRED_ACTIONS = ("Open", "SocksAuth", "Request", "Finish")
     ASSUMPTIONS = (
         "hooks are dispatched to the ProxyAuth / NextLayer addons by hook name, as the addon manager does; the upstream "
         "peer accepts every connection and answers every request head with 200",
         "what is forwarded is read from the bytes written to server connections by the harness's own HTTP/1 reader "
         "(requests carry an X-Rid header); 'accepts' is the configured validator called directly on the pair read from "
-        "the credential header by a strict RFC 7617 reader (first-colon split, padded base64, UTF-8)",
+        "the credential header by a strict RFC 7617 reader (first-colon split, padded base64, UTF-8); a validator that "
+        "raises has not accepted; handler exceptions are swallowed by the real addonmanager.safecall()",
         "a client 'has presented valid credentials' once a request / CONNECT / SOCKS5 negotiation with an accepted pair "
         "was served on its connection",
     )
@@ -430,7 +444,11 @@ class Check(core.PropertyCheck):
             o = w.oracle(v)
             for cls in creds:
                 pair = strict_basic(cred_value(cls)) if cls != "wronghdr" else None
-                if pair is not None and o(*pair):
+                try:
+                    ok = pair is not None and bool(o(*pair))
+                except Exception:  # a validator that raises has not accepted the pair
+                    ok = False
+                if ok:
                     tab.add((v, cls))
         return frozenset(tab)
 
@@ -443,7 +461,7 @@ class Check(core.PropertyCheck):
             "Paths2": frozenset({"regular", "socks5"} if quick else {"regular", "socks5", "reverse"}),
             "HttpCreds": frozenset(http),
             "HttpCreds2": frozenset({"missing", "valid"}),
-            "SocksCreds": frozenset(("valid", "colon", "wrong", "missing") if quick else SOCKS_CREDS),
+            "SocksCreds": frozenset(("valid", "colon", "wrong", "missing", "raises") if quick else SOCKS_CREDS),
             "AcceptTab": self.accept_tab(set(http) | set(SOCKS_CREDS)),
             "MaxReq": 2 if quick else 3,
             "NConn": 2,
